@@ -53,20 +53,20 @@ func (k stopKind) connPhase() bool      { return k >= stopDialErr }
 
 // StreamPlan tells the master how the event stream of one attempt ends.
 type StreamPlan struct {
-	Kind      stopKind
-	AtPacket  int // index into the packet list; clipped to its length
-	ByteOff   int // short packet: bytes of that packet that still arrive (clipped to 1..len-1)
-	ErrCode   uint16
-	ErrMsg    string
-	ThenFIN   bool
-	Invalid   []byte // invalid-event payload
-	Second    bool   // a second, short malformed packet follows the injected one at once
-	Invalid2  []byte
-	BadType   byte   // unsupported event type
-	SeqDelta  int    // bad-seq: +1 (skipped) or -1 (repeated)
-	Heartbeat int    // 1/n chance of a heartbeat at each unit boundary (0 = none)
+	Kind              stopKind
+	AtPacket          int // index into the packet list; clipped to its length
+	ByteOff           int // short packet: bytes of that packet that still arrive (clipped to 1..len-1)
+	ErrCode           uint16
+	ErrMsg            string
+	ThenFIN           bool
+	Invalid           []byte // invalid-event payload
+	Second            bool   // a second, short malformed packet follows the injected one at once
+	Invalid2          []byte
+	BadType           byte // unsupported event type
+	SeqDelta          int  // bad-seq: +1 (skipped) or -1 (repeated)
+	Heartbeat         int  // 1/n chance of a heartbeat at each unit boundary (0 = none)
 	HeartbeatAnywhere bool // also between the events of a unit (1/4n each)
-	hbSeed    uint64
+	hbSeed            uint64
 }
 
 // DumpReq is what the master decoded from COM_BINLOG_DUMP.
@@ -109,7 +109,7 @@ type simMaster struct {
 	inbuf    []byte
 	phase    int // 0 awaiting handshake response, 1 command phase, 2 dumping
 	packets  []wirePacket
-	dumpBase int // conn.delivered+len(wire) when the dump stream started
+	dumpBase int      // conn.delivered+len(wire) when the dump stream started
 	tail     stopKind // what happens when the wire is exhausted: stopNone (idle), stopFIN, stopRST
 	served   Pos
 	dumpLen  int
@@ -147,16 +147,16 @@ func (m *simMaster) greet() {
 	p := []byte{10}
 	p = append(p, "5.7.44-sim"...)
 	p = append(p, 0)
-	p = le32(p, 77)                     // connection id
-	p = append(p, "abcdefgh"...)        // auth data part 1
-	p = append(p, 0)                    // filler
-	p = le16(p, 0xf7ff)                 // capabilities lower (protocol41, secure conn, ... no SSL)
-	p = append(p, 33)                   // charset
-	p = le16(p, 2)                      // status
-	p = le16(p, 0x81ff&^0x0800)         // capabilities upper (plugin auth)
-	p = append(p, 21)                   // auth data len
-	p = append(p, make([]byte, 10)...)  // reserved
-	p = append(p, "ijklmnopqrst"...)    // auth data part 2 (12)
+	p = le32(p, 77)                    // connection id
+	p = append(p, "abcdefgh"...)       // auth data part 1
+	p = append(p, 0)                   // filler
+	p = le16(p, 0xf7ff)                // capabilities lower (protocol41, secure conn, ... no SSL)
+	p = append(p, 33)                  // charset
+	p = le16(p, 2)                     // status
+	p = le16(p, 0x81ff&^0x0800)        // capabilities upper (plugin auth)
+	p = append(p, 21)                  // auth data len
+	p = append(p, make([]byte, 10)...) // reserved
+	p = append(p, "ijklmnopqrst"...)   // auth data part 2 (12)
 	p = append(p, 0)
 	p = append(p, "mysql_native_password"...)
 	p = append(p, 0)
